@@ -31,6 +31,95 @@ pub proof fn lemma_wsum_pick<K, V>(m: Map<K, V>, w: spec_fn(K, V) -> int, k: K)
     }
 }
 
+/// sum of a sequence of terms
+pub open spec fn isum(s: Seq<int>) -> int
+    decreases s.len(),
+{
+    if s.len() == 0 { 0 } else { isum(s.drop_last()) + s.last() }
+}
+
+/// L-wsum-enum: summing the weights along ANY duplicate-free enumeration of the entries of a map gives the weighted sum
+/// (this is what `map.iter().map(|(k, v)| weight).sum()` computes, whatever order the hash map iterates in)
+pub proof fn lemma_wsum_enumeration<K, V>(m: Map<K, V>, kv: Seq<(K, V)>, w: spec_fn(K, V) -> int)
+    requires
+        kv.no_duplicates(),
+        kv.to_set() == m.kv_pairs(),
+    ensures
+        isum(Seq::new(kv.len(), |i: int| w(kv[i].0, kv[i].1))) == wsum(m, w),
+    decreases kv.len(),
+{
+    let terms = Seq::new(kv.len(), |i: int| w(kv[i].0, kv[i].1));
+    if kv.len() == 0 {
+        assert(m.dom() =~= Set::<K>::empty()) by {
+            assert forall|k: K| !m.dom().contains(k) by {
+                if m.dom().contains(k) { assert(m.kv_pairs().contains((k, m[k]))); assert(kv.to_set().contains((k, m[k]))); }
+            }
+        }
+        assert(m.dom().len() == 0);
+    } else {
+        let n = kv.len() as int;
+        let (k, v) = kv[n - 1];
+        assert(kv.to_set().contains(kv[n - 1]));
+        assert(m.kv_pairs().contains((k, v)));
+        assert(m.contains_key(k) && m[k] == v);
+        let kv2 = kv.drop_last();
+        let m2 = m.remove(k);
+        assert(kv2.no_duplicates());
+        assert(kv2.to_set() =~= m2.kv_pairs()) by {
+            assert forall|p: (K, V)| kv2.to_set().contains(p) <==> m2.kv_pairs().contains(p) by {
+                if kv2.contains(p) {
+                    let i = choose|i: int| 0 <= i < kv2.len() && kv2[i] == p;
+                    assert(kv[i] == p && i != n - 1);
+                    assert(kv.to_set().contains(p));
+                    assert(m.kv_pairs().contains(p));
+                    if p.0 == k { assert(p == (k, v)); assert(kv[i] == kv[n - 1]); }
+                }
+                if m2.kv_pairs().contains(p) {
+                    assert(m.kv_pairs().contains(p));
+                    assert(kv.contains(p));
+                    let i = choose|i: int| 0 <= i < kv.len() && kv[i] == p;
+                    assert(i != n - 1);
+                    assert(kv2[i] == p);
+                }
+            }
+        }
+        lemma_wsum_enumeration(m2, kv2, w);
+        let terms2 = Seq::new(kv2.len(), |i: int| w(kv2[i].0, kv2[i].1));
+        assert(terms.drop_last() =~= terms2);
+        lemma_wsum_pick(m, w, k);
+    }
+}
+
+/// non-negative weights: the sum is non-negative and bounds every term
+pub proof fn lemma_wsum_nonneg<K, V>(m: Map<K, V>, w: spec_fn(K, V) -> int)
+    requires forall|j: K| m.contains_key(j) ==> w(j, m[j]) >= 0,
+    ensures wsum(m, w) >= 0,
+    decreases m.dom().len(),
+{
+    if m.dom().len() > 0 {
+        let k = m.dom().choose();
+        assert(m.dom().contains(k));
+        lemma_wsum_nonneg(m.remove(k), w);
+    }
+}
+pub proof fn lemma_wsum_term_le<K, V>(m: Map<K, V>, w: spec_fn(K, V) -> int, k: K)
+    requires m.contains_key(k), forall|j: K| m.contains_key(j) ==> w(j, m[j]) >= 0,
+    ensures 0 <= w(k, m[k]) <= wsum(m, w),
+{
+    lemma_wsum_pick(m, w, k);
+    lemma_wsum_nonneg(m.remove(k), w);
+}
+/// usum (vshim: what `.sum()` of usize terms is) against isum
+pub proof fn lemma_usum_isum(u: Seq<usize>, t: Seq<int>)
+    requires u.len() == t.len(), forall|j: int| 0 <= j < u.len() ==> u[j] as int == t[j],
+    ensures crate::vshim::usum(u) == isum(t),
+    decreases u.len(),
+{
+    if u.len() > 0 {
+        lemma_usum_isum(u.drop_last(), t.drop_last());
+    }
+}
+
 /// changing (or adding) one entry changes the sum by the difference of its weights
 pub proof fn lemma_wsum_insert<K, V>(m: Map<K, V>, w: spec_fn(K, V) -> int, k: K, v: V)
     ensures wsum(m.insert(k, v), w) == wsum(m, w) + w(k, v) - (if m.contains_key(k) { w(k, m[k]) } else { 0 }),
